@@ -1,11 +1,11 @@
-\* C14 quick: 19 kind spellings/value forms (7 forms each of span and metric) x 5 extents (incl. empty and backwards ranges) x 18 metric value classes (incl. zero / cancelling totals) x 3 aggregations x the 8 signal
-\* subsets = 41040 abstract events, each an initial state of the emit path; replayed over HTTP/protobuf, HTTP/JSON+gzip, gRPC+gzip.
+\* C14 quick: 19 kind spellings/value forms (7 forms each of span and metric) x 5 extents (incl. empty and backwards ranges) x 22 metric value classes (incl. zero / cancelling totals) x 4 aggregations x the 8 signal
+\* subsets = 66880 abstract events, each an initial state of the emit path; replayed over HTTP/protobuf, HTTP/JSON+gzip, gRPC+gzip.
 SPECIFICATION Spec
 CONSTANTS
     Kinds = {"absent", "other", "int", "SPAN", "padMetric", "span", "typedSpan", "spanTypedOwned", "spanStrOwned", "spanDisplay", "spanFromDisplay", "spanString", "metric", "typedMetric", "metricTypedOwned", "metricStrOwned", "metricDisplay", "metricFromDisplay", "metricString"}
     Extents = {"none", "point", "range", "emptyRange", "backRange"}
-    Vals = {"i64", "f64", "u64big", "seqi", "seqf", "i64zero", "f64zero", "f64negzero", "seqiZeros", "seqiCancel", "seqfZeros", "seqfCancel", "emptySeq", "nestedSeq", "textSeq", "text", "bool", "missing"}
-    Aggs = {"count", "last", "missing"}
+    Vals = {"i64", "f64", "u64big", "u64small", "i128small", "i128big", "seqi", "seqf", "i64zero", "f64zero", "f64negzero", "seqiZeros", "seqiCancel", "seqfZeros", "seqfCancel", "emptySeq", "nestedSeq", "textSeq", "text", "bool", "null", "missing"}
+    Aggs = {"count", "sum", "last", "missing"}
     Emit = TRUE
 INVARIANTS TypeOK ZeroTotalsRouteLikeTwins RouteRefines DiscardCounted OnlyConfigured
 PROPERTY SentOnce
